@@ -1,6 +1,8 @@
 (* Model/Validate.v - the validations of pipefunc that reject ill-formed pipelines and map requests (C12).
 
-   WHAT IS MODELLED (the code after the three C12 repairs, see known_findings.jsonl "fixed:" lines)
+   WHAT IS MODELLED (the code after the C12 repairs, see known_findings.jsonl "fixed:" lines, and after the C05/C06
+   repairs: internal shapes are constructed before the comparison with the previous run, and RunInfo.__post_init__
+   writes the inputs and defaults first and run_info.json last)
      construction    PipeFunc.__init__: _maybe_mapspec (MapSpec.__post_init__ = MapSpec.build of C08),
                      _validate_names, _validate_mapspec                               -> validate_func
                      Pipeline.add (called once per function by Pipeline.__init__): validate_unique_output_names,
@@ -495,14 +497,17 @@ Definition c_st_dict (q : mreq) : result unit :=
 (* the checks of _compare_to_previous_run_info are guarded by `RunInfo.path(run_folder).is_file()` *)
 Definition with_prev (q : mreq) (k : prev_info -> result unit) : result unit :=
   match q_prev q with None => Ok tt | Some p => k p end.
+(* RunInfo.create constructs the internal shapes (argument + PipeFunc.internal_shape) BEFORE comparing with the
+   previous run, and the comparison uses the constructed ones *)
+Definition new_internal (q : mreq) : shape_dict := construct_internal (q_internal q) (q_funcs q).
 Definition c_prev_internal (q : mreq) : result unit :=
-  with_prev q (fun p => if dict_eqb shape_eqb (q_internal q) (old_internal q p)
-                           && dict_eqb shape_eqb (old_internal q p) (q_internal q)
+  with_prev q (fun p => if dict_eqb shape_eqb (new_internal q) (old_internal q p)
+                           && dict_eqb shape_eqb (old_internal q p) (new_internal q)
                         then Ok tt else Err ValueError).
 Definition c_prev_map_shapes (q : mreq) : result unit :=
-  with_prev q (fun _ => do _ <- map_shapes q (q_internal q); Ok tt).
+  with_prev q (fun _ => do _ <- map_shapes q (new_internal q); Ok tt).
 Definition c_prev_shapes (q : mreq) : result unit :=
-  with_prev q (fun p => match map_shapes q (q_internal q), old_shapes q p with
+  with_prev q (fun p => match map_shapes q (new_internal q), old_shapes q p with
                         | Ok new, Ok old => if dict_eqb shape_eqb new old && dict_eqb shape_eqb old new
                                             then Ok tt else Err ValueError
                         | _, _ => Ok tt      (* not reached: the previous check failed / the old run was valid *)
@@ -551,7 +556,7 @@ Definition steps_prev : list step :=
   [Rewrite R_load; Check L_prev_load; Check L_prev_internal; Check L_prev_mapspecs; Check L_prev_map_shapes;
    Check L_prev_shapes; Check L_prev_inputs; Check L_prev_defaults].
 Definition steps_tail : list step :=
-  [Check L_check_inputs; Check L_map_shapes; Effect E_dump_info; Effect E_dump_inputs; Effect E_dump_defaults]
+  [Check L_check_inputs; Check L_map_shapes; Effect E_dump_inputs; Effect E_dump_defaults; Effect E_dump_info]
   ++ storage_checks ++ [Effect E_init_arrays].
 Definition map_steps (cleanup : bool) : list step :=
   steps_head ++ (if cleanup then [Effect E_cleanup] else steps_prev) ++ steps_tail.
